@@ -489,15 +489,29 @@ def ctor(ctx) -> None:
         ctx.rep.check(ok_copy, rule, f"{c}/copy", "initial array is copied", "the caller's initial_volumes array becomes the live volume buffer (no copy): it can be changed from outside without any check", where=w)
         # the buffer must hold floats: an integer array silently truncates every fractional amount written into it,
         # so the limit comparisons would run on under-counted volumes
-        def floaty(e):
-            for sub_ in ast.walk(e):
-                if isinstance(sub_, ast.Call) and call_fname(sub_) == "astype" and sub_.args and (is_name_(sub_.args[0], "float") or (isinstance(sub_.args[0], ast.Attribute) and sub_.args[0].attr in ("float64", "float_", "double"))):
+        def is_float_type(t_):
+            return is_name_(t_, "float") or (isinstance(t_, ast.Attribute) and t_.attr in ("float64", "float_", "double")) or (isinstance(t_, ast.Constant) and t_.value in ("float", "float64", "f8", "d"))
+
+        def floaty(e, depth=0):
+            """the array is float on every path: follow the method chain / the alternatives of a conditionally assigned name"""
+            if depth > 8:
+                return False
+            if is_sym(e, "phi"):
+                return all(floaty(a_, depth + 1) for a_ in e.args)
+            if is_sym(e, "norm"):
+                return all(floaty(a_, depth + 1) for a_ in e.args[1:]) if len(e.args) > 1 else False
+            if isinstance(e, ast.Call):
+                if call_fname(e) == "astype" and e.args and is_float_type(e.args[0]):
                     return True
-                if isinstance(sub_, ast.Call) and any(k.arg == "dtype" and (is_name_(k.value, "float") or (isinstance(k.value, ast.Attribute) and k.value.attr in ("float64", "float_", "double"))) for k in sub_.keywords):
+                if any(k.arg == "dtype" and is_float_type(k.value) for k in e.keywords):
                     return True
+                if isinstance(e.func, ast.Attribute) and call_fname(e) in ("copy", "reshape", "flatten", "ravel", "view", "squeeze", "transpose"):
+                    return floaty(e.func.value, depth + 1)
+                if call_fname(e) in ("array", "asarray", "copy", "reshape", "atleast_1d", "atleast_2d") and e.args and not any(k.arg == "dtype" for k in e.keywords):
+                    return floaty(e.args[0], depth + 1)
             return False
 
-        ctx.rep.check(floaty(n.ast.value) or floaty(val), rule, f"{c}/float", "the volume buffer is created as a float array",
+        ctx.rep.check(floaty(val), rule, f"{c}/float", "the volume buffer is created as a float array",
                       "the volume buffer keeps the dtype of the caller's initial volumes: integer initial volumes give an integer buffer, which truncates every fractional amount added or removed "
                       "(the limit checks then see under-counted volumes)", where=w)
 
